@@ -23,7 +23,7 @@ only their twins are compared, C07), convergence of the Newton / power iteration
 import ast
 import numpy as np
 from sa import poly as P
-from sa.symeval import Interp, Env, sym_vec, sym_mat, to_obj, unit_syms, unit_vec, Stop, det, _RET
+from sa.symeval import ClassRef, Interp, Env, sym_vec, sym_mat, to_obj, unit_syms, unit_vec, Stop, det, _RET
 from sa.lib import eq, all_of, I, E_ref
 
 F = "ahrs/filters/"
@@ -445,6 +445,43 @@ def aqua_tilt(chk, prog):
                construct="tilt fix [az %s 0]" % (">=" if arm else "<"), **kw)
 
 
+def tilt_representations(chk, prog):
+    """TILT.repr: the three representations Tilt.estimate can return describe one attitude: with the three arctan2 values kept as opaque angles (in call
+    order), the quaternion it returns is Quaternion.from_rpy of the angles it returns (the library's roll-pitch-yaw construction, decided in C10), and the
+    matrix is that quaternion's matrix"""
+    from fractions import Fraction
+    from sa.lib import quat_obj, QUAT
+    f = prog.func(F + "tilt.py::Tilt.estimate")
+    g = prog.func(QUAT + "::Quaternion.from_rpy")
+    chk.touch(f)
+    kw = dict(module=f.module.rel, function=f.qname, line=f.node.lineno)
+    acc, mag = sym_vec("tla", 3), sym_vec("tlm", 3)
+
+    def run(representation, with_mag):
+        k = [0]
+
+        def atan(it_, args, kwargs):
+            k[0] += 1
+            sy_ = P.sym("tang%d" % k[0])
+            P.set_angle_unit(sy_, Fraction(1, 2))
+            return sy_
+        it = Interp(prog, intercepts={"np.arctan2": atan})
+        obj = it.make_obj(F + "tilt.py::Tilt")
+        return it, to_obj(it.run(f, [acc.copy(), mag.copy() if with_mag else None, representation], self_obj=obj))
+    for with_mag in (False, True):
+        def law(with_mag=with_mag):
+            it, ang = run("angles", with_mag)
+            _, q = run("quaternion", with_mag)
+            _, R = run("rotmat", with_mag)
+            want = to_obj(Interp(prog, oracle=lambda c, i: False if c.op in ("<", ">", "<=", ">=") else None).run(g, [ClassRef(prog.cls(QUAT + "::Quaternion")), ang]))      # range validation not taken
+            n2 = sum((x * x for x in want), P.ZERO)
+            outs = [eq(q * q[0] * 0 + q, want / P.sqrt(n2), "quaternion == from_rpy(angles)") if False else eq(q, want / P.sqrt(n2), "quaternion == from_rpy(angles)"),
+                    eq(R, E_ref(q), "rotmat == E(quaternion)")]
+            return all_of(*outs)
+        chk.ob("TILT.repr", f.ref + ("::MARG" if with_mag else "::IMU"), "quaternion == Quaternion.from_rpy(angles) and rotmat == E(quaternion)%s" % (" (with magnetometer)" if with_mag else ""),
+               law, construct="representations agree%s" % (" [mag]" if with_mag else ""), **kw)
+
+
 def pose_div(chk, prog):
     """POSE-DIV: the singularity-free estimator (Tilt, scalar and batch copy) divides only by the norms of its samples and by literals:
     any other divisor is a pose-dependent quantity that vanishes for some attitude (the documented selling point is that none does)."""
@@ -545,6 +582,7 @@ def run(chk, prog, tier):
     pose_div(chk, prog)
     am2q_route(chk, prog)
     aqua_tilt(chk, prog)
+    tilt_representations(chk, prog)
     if arm_guard(chk, prog, F + "aqua.py::AQUA.estimate") < 6:
         chk.error("ARM-GUARD: fewer than 6 guarded divisors found in AQUA.estimate (two two-armed formulas confirmed by hand)")
     chk.require_count("OLEQ.fixed", 2)
